@@ -226,9 +226,9 @@ def run(tier, seed):
         dcr = sub("creds")
         fs = vlib.run_workers("creds", ["--tier", tier, "--seed", str(seed)], 4, dcr, "cr", stall_s=60)
         checked2, classes2 = vlib.tlc_validate("Trace_Creds", vlib.split_chunks(fs, dcr, "crc", 1500))
-        out.absorb("Trace_Creds", checked2, classes2, label="privilege programs")
+        out.absorb("Trace_Creds", checked2, classes2, label="privilege programs", beyond=True)
     except Stall as st:
-        vlib.stall_violation(out, st, "creds")
+        vlib.stall_beyond(out, st, "creds")
     for v in out.violations:          # make replay files self-contained: the environment travels with the record
         r = v.get("record")
         if isinstance(r, dict) and isinstance(r.get("e"), int) and r["e"] < len(envs):
